@@ -19,6 +19,40 @@ def _import_native(contract_module):
 
 
 def resolve_native(qual):
+    if "::" in qual:
+        import types
+
+        outer_q, inner = qual.split("::", 1)
+        outer = resolve_native(outer_q)
+        fns = [getattr(outer, "__func__", outer)]
+        seen = set()
+        code = None
+        glob = None
+        while fns and code is None:
+            fn = fns.pop()
+            if id(fn) in seen or not hasattr(fn, "__code__"):
+                continue
+            seen.add(id(fn))
+            if hasattr(fn, "__wrapped__"):
+                fns.append(fn.__wrapped__)
+            for cell in fn.__closure__ or ():
+                try:
+                    if callable(cell.cell_contents):
+                        fns.append(cell.cell_contents)
+                except ValueError:
+                    pass
+            stack = [fn.__code__]
+            while stack and code is None:
+                c = stack.pop()
+                for k in c.co_consts:
+                    if isinstance(k, types.CodeType):
+                        if k.co_name == inner:
+                            code, glob = k, fn.__globals__
+                            break
+                        stack.append(k)
+        if code is None or code.co_freevars:
+            raise ImportError(f"cannot extract nested function {inner} from {outer_q}")
+        return types.FunctionType(code, glob, inner)
     parts = qual.split(".")
     for i in range(len(parts), 0, -1):
         try:
